@@ -20,6 +20,9 @@ def main():
         contextualize_report(case['main'])
         S.clear_sandbox()
         sb = S.get_sandbox()
+        if case.get('real_io'):
+            # printing is also echoed to the real console; what is recorded must be the same
+            sb.allow_function('print')   # the output half of allow_real_io(); inputs stay queued
         obs = []
         err = None
         for op in case['ops']:
